@@ -172,6 +172,14 @@ class Weaver:
                     d = d.strip()
                     if d in ('Copy', 'Clone', 'PartialEq', 'Eq') and d not in keep:
                         keep.append(d)
+        if it.kind == 'enum' and 'PartialEq' in keep and 'Eq' in keep:
+            # a field-less enum with derived PartialEq + Eq: `==` is equality of the variants. Verus learns this from its `Structural`
+            # derive; without it `t == Target::Stderr` in exec code has an unspecified result and a `match` rewritten as `if ==` cannot
+            # be followed (false alarm on benign/C/benign3.diff)
+            mt = rs.mask(txt)
+            b0 = mt.find('{')
+            if b0 >= 0 and not re.search(r'[({]', mt[b0 + 1:rs.match_close(mt, b0)]):
+                keep.append('Structural')
         if keep and 'noderive' not in opts:
             self.emit('#[derive(%s)]\n' % ', '.join(keep), {'k': 'repo', 'file': rel, 'line': line0, 'item': path, 'what': 'derive subset'})
         for pre in opts.get('attr', []):
